@@ -110,6 +110,10 @@ func (c16) Gen(r *simrt.Rand, idx int, tier string) *Case {
 			break
 		}
 	}
+	if min, max, ok := c.J.TxnSpan(); ok && idx%6 == 4 {
+		// the command runs on a day in the middle of the journal: later entries are in the future
+		c.Today = (min + (max-min)/2).String()
+	}
 	cs := c.J.Commodities()
 	if len(cs) == 0 {
 		return nil
